@@ -49,6 +49,7 @@ type resolver struct {
 	c     *Ctx
 	seen  map[resKey]bool
 	steps int
+	heap  bool // resolve fields of objects reached through pointers by the stores to that field anywhere (closed struct types only)
 }
 
 type resKey struct {
@@ -249,13 +250,30 @@ func (r *resolver) resPtr(ptr ssa.Value, fs []*types.Var, depth int, out *[]apat
 	default:
 		// pointer value: resolve where the pointer comes from; the path continues from the pointee
 		var ptrs []apath
-		sub := &resolver{c: r.c, seen: r.seen, steps: r.steps}
+		sub := &resolver{c: r.c, seen: r.seen, steps: r.steps, heap: r.heap}
 		sub.res(ptr, nil, depth+1, &ptrs)
 		r.steps = sub.steps
 		for _, pp := range ptrs {
 			if al, ok := pp.Root.(*ssa.Alloc); ok && len(pp.Fields) == 0 {
 				r.fieldOfAlloc(al, fs, depth+1, out)
 				continue
+			}
+			if r.heap && len(fs) > 0 && r.c.closedField(fs[0]) && depth < 20 {
+				// object not visible here: the field holds whatever some store put into it
+				start := len(*out)
+				n := 0
+				for _, u := range usesOfKind(r.c.P.uses(fs[0]), "store") {
+					n++
+					r.res(u.Val, fs[1:], depth+1, out)
+				}
+				if n > 0 {
+					if len(fs) == 1 {
+						for i := start; i < len(*out); i++ {
+							(*out)[i].Via = append(append([]*types.Var{}, (*out)[i].Via...), fs[0])
+						}
+					}
+					continue
+				}
 			}
 			*out = append(*out, apath{Root: pp.Root, Fields: append(append([]*types.Var{}, pp.Fields...), fs...)})
 		}
@@ -466,6 +484,7 @@ type siteVal struct {
 	At    ssa.Instruction
 	Val   ssa.Value
 	Store *ssa.Store
+	Base  ssa.Value // the object written to, as seen at At (the argument passed for it when lifted)
 }
 
 // liftedFieldWrites: all writes to field f; a store of a function's own parameter is
@@ -474,32 +493,39 @@ func (c *Ctx) liftedFieldWrites(f *types.Var) []siteVal {
 	var out []siteVal
 	for _, u := range usesOfKind(c.P.uses(f), "store") {
 		st := u.At.(*ssa.Store)
-		c.liftWrite(st, st.Val, st, 0, &out)
+		c.liftWrite(st, st.Val, fieldBase(st), st, 0, &out)
 	}
 	return out
 }
 
-func (c *Ctx) liftWrite(at ssa.Instruction, v ssa.Value, st *ssa.Store, depth int, out *[]siteVal) {
+func (c *Ctx) liftWrite(at ssa.Instruction, v, base ssa.Value, st *ssa.Store, depth int, out *[]siteVal) {
 	prm, ok := v.(*ssa.Parameter)
 	if ok && depth < ipMaxDepth {
 		fn := prm.Parent()
-		idx := -1
+		idx, bidx := -1, -1
 		for i, q := range fn.Params {
 			if q == prm {
 				idx = i
+			}
+			if base != nil && (ssa.Value(q) == base || c.isParamCopy(base, q)) {
+				bidx = i
 			}
 		}
 		sites := c.P.syncCallers(fn)
 		if idx >= 0 && len(sites) > 0 && !c.P.asyncUsed(fn) {
 			for _, s := range sites {
 				if idx < len(s.Common().Args) {
-					c.liftWrite(s, s.Common().Args[idx], st, depth+1, out)
+					b2 := base
+					if bidx >= 0 && bidx < len(s.Common().Args) {
+						b2 = s.Common().Args[bidx]
+					}
+					c.liftWrite(s, s.Common().Args[idx], b2, st, depth+1, out)
 				}
 			}
 			return
 		}
 	}
-	*out = append(*out, siteVal{At: at, Val: v, Store: st})
+	*out = append(*out, siteVal{At: at, Val: v, Store: st, Base: base})
 }
 
 // nonNilAt: value v is certainly non-nil where it is used at instruction `at`
@@ -626,4 +652,60 @@ func (c *Ctx) funcsOf(v ssa.Value) []*ssa.Function {
 		out = append(out, f)
 	}
 	return out
+}
+
+// originsHeap: like origins, but a field of an object that is only reachable through a pointer
+// (a method receiver, say) resolves to everything stored into that field anywhere in the tree.
+// Only for fields of closed struct types (see closedField).
+func (c *Ctx) originsHeap(v ssa.Value) []apath {
+	r := &resolver{c: c, seen: map[resKey]bool{}, heap: true}
+	var out []apath
+	r.res(v, nil, 0, &out)
+	return dedupPaths(out)
+}
+
+// closedField: every write to field f is a visible store: its struct type is declared in the
+// tree, no value of that type (or pointer to it) is ever converted to an interface (so neither
+// a decoder nor reflection can fill it), and the field's address is never handed out.
+func (c *Ctx) closedField(f *types.Var) bool {
+	if c.closedFields == nil {
+		c.closedFields = map[*types.Var]bool{}
+		p := c.P
+		open := map[types.Type]bool{}
+		for _, fn := range p.Funcs {
+			allInstrsRaw(fn, func(in ssa.Instruction) {
+				if mi, ok := in.(*ssa.MakeInterface); ok {
+					t := mi.X.Type()
+					if pt, ok := t.Underlying().(*types.Pointer); ok {
+						t = pt.Elem()
+					}
+					open[t] = true
+				}
+			})
+		}
+		for _, pkg := range []*ssa.Package{p.Root, p.Auth, p.Httpio} {
+			if pkg == nil {
+				continue
+			}
+			for _, nt := range namedStructs(pkg.Pkg) {
+				st, ok := nt.Underlying().(*types.Struct)
+				if !ok || open[nt] {
+					continue
+				}
+				for i := 0; i < st.NumFields(); i++ {
+					fv := st.Field(i)
+					okf := true
+					for _, u := range p.uses(fv) {
+						if u.Kind == "addr-arg" {
+							okf = false
+						}
+					}
+					if okf {
+						c.closedFields[fv] = true
+					}
+				}
+			}
+		}
+	}
+	return c.closedFields[f]
 }
